@@ -211,6 +211,10 @@ pub struct ReadShared {
     pub end_polls: Cell<u64>,
     pub budget_tripped: Cell<bool>,
     pub fired: RefCell<Vec<Fired>>,
+    /// When set, every read call is recorded as `(call, asked, answer)` for the
+    /// replay file's event log.
+    pub trace: Cell<bool>,
+    pub calls_log: RefCell<Vec<String>>,
 }
 
 impl ReadShared {
@@ -292,6 +296,21 @@ impl<'a> SimReader<'a> {
 
 impl<'a> io::Read for SimReader<'a> {
     fn read(&mut self, buf: &mut [u8]) -> io::Result<usize> {
+        let call = self.calls;
+        let r = self.read_inner(buf);
+        if self.shared.trace.get() && self.shared.calls_log.borrow().len() < 400 {
+            let answer = match &r {
+                Ok(n) => format!("Ok({})", n),
+                Err(e) => format!("Err({:?})", e.kind()),
+            };
+            self.shared.calls_log.borrow_mut().push(format!("read#{} asked {} at offset {} -> {}", call, buf.len(), self.base + self.pos, answer));
+        }
+        r
+    }
+}
+
+impl<'a> SimReader<'a> {
+    fn read_inner(&mut self, buf: &mut [u8]) -> io::Result<usize> {
         let epoch = self.shared.epoch.get();
         if epoch != self.seen_epoch {
             self.seen_epoch = epoch;
@@ -462,6 +481,9 @@ pub enum WriteAnswer {
 }
 
 pub struct SimWriter {
+    /// When set, every write call is recorded for the replay file's event log.
+    pub trace: bool,
+    pub calls_log: Vec<String>,
     vectored: bool,
     pub vectored_calls: u64,
     pub delivered: Vec<u8>,
@@ -482,6 +504,8 @@ pub struct SimWriter {
 impl SimWriter {
     pub fn new(plan: &WritePlan) -> SimWriter {
         SimWriter {
+            trace: false,
+            calls_log: Vec::new(),
             vectored: plan.vectored,
             vectored_calls: 0,
             delivered: Vec::new(),
@@ -514,6 +538,42 @@ impl SimWriter {
 
 impl io::Write for SimWriter {
     fn write(&mut self, buf: &[u8]) -> io::Result<usize> {
+        let call = self.calls;
+        let at = self.delivered.len();
+        let r = self.write_inner(buf);
+        if self.trace && self.calls_log.len() < 400 {
+            let answer = match &r {
+                Ok(n) => format!("Ok({})", n),
+                Err(e) => format!("Err({:?})", e.kind()),
+            };
+            self.calls_log.push(format!("write#{} offered {} at offset {} -> {}", call, buf.len(), at, answer));
+        }
+        r
+    }
+
+    fn write_vectored(&mut self, bufs: &[io::IoSlice<'_>]) -> io::Result<usize> {
+        self.vectored_calls += 1;
+        if self.vectored {
+            // a native gather write: the same script applied to the concatenation
+            let all: Vec<u8> = bufs.iter().flat_map(|b| b.iter().copied()).collect();
+            self.write(&all)
+        } else {
+            let first = bufs.iter().find(|b| !b.is_empty()).map_or(&[][..], |b| &**b);
+            self.write(first)
+        }
+    }
+
+    fn flush(&mut self) -> io::Result<()> {
+        self.flushes += 1;
+        if self.trace {
+            self.calls_log.push("flush".to_string());
+        }
+        Ok(())
+    }
+}
+
+impl SimWriter {
+    fn write_inner(&mut self, buf: &[u8]) -> io::Result<usize> {
         let call = self.calls;
         self.calls += 1;
         self.op_calls += 1;
@@ -586,22 +646,6 @@ impl io::Write for SimWriter {
         Ok(n)
     }
 
-    fn write_vectored(&mut self, bufs: &[io::IoSlice<'_>]) -> io::Result<usize> {
-        self.vectored_calls += 1;
-        if self.vectored {
-            // a native gather write: the same script applied to the concatenation
-            let all: Vec<u8> = bufs.iter().flat_map(|b| b.iter().copied()).collect();
-            self.write(&all)
-        } else {
-            let first = bufs.iter().find(|b| !b.is_empty()).map_or(&[][..], |b| &**b);
-            self.write(first)
-        }
-    }
-
-    fn flush(&mut self) -> io::Result<()> {
-        self.flushes += 1;
-        Ok(())
-    }
 }
 
 // ---------------------------------------------------------------------------
